@@ -257,6 +257,77 @@ def run(ctx):
             if m:
                 r.violate(key, f"{f.key}: `enumerate` is applied after `{m.group(1)}` ({chain[:100]}): the indices are relative to the remaining items, so ids / positions computed from them are shifted (wrong handler or stack entry)", f.loc())
 
+    # ------------------------------------------------------------------ R04.8
+    r = ctx.rule("R04.8", "combinator routing agrees across the three layers: `>` fills AstNode.children and ` ` fills AstNode.descendants (Ast::add_selector); the compiler turns children into ExecutionBranch.jumps and descendants into hereditary_jumps; the VM stores them in the like-named StackItem fields, tries `jumps` of the parent (last stack item) only and `hereditary_jumps` of every open ancestor (Stack::active_hereditary_jumps, fed by push_item from the pushed item's hereditary_jumps)", "E-AST + E-MIR field flow", floor=7)
+    ads = idx.one("add_selector", owner="Ast")
+    arms = {}
+    for n in walk(ads.node["body"]):
+        if n.get("k") == "Match":
+            for a in n["arms"]:
+                ps = (a["pat"].get("s") or "").replace(" ", "")
+                for comb in ("Child", "Descendant", "NextSibling", "LaterSibling"):
+                    if "Combinator::" + comb in ps:
+                        flds = sorted(set(x.get("member") for x in walk(a["body"]) if x.get("k") == "Field" and x.get("member") in ("children", "descendants")))
+                        arms[comb] = flds
+    for comb, want in (("Child", ["children"]), ("Descendant", ["descendants"])):
+        r.inst("ast|" + comb, sample={"combinator": comb, "fields": arms.get(comb)})
+        if arms.get(comb) != want:
+            r.violate("ast|" + comb, f"Ast::add_selector files the right-hand side of the {comb} combinator under {arms.get(comb)} instead of {want}: `a > b` and `a b` would be confused", "src/selectors_vm/ast.rs")
+    cn = mir.fn("Compiler::compile_nodes")
+    aggs = [st["rv"] for b in cn.blocks for st in b["stmts"] if st["k"] == "assign" and st["rv"]["k"] == "agg" and (st["rv"].get("name") or "").endswith("ExecutionBranch")]
+    r.inst("compiler|ExecutionBranch", sample={"aggregates": len(aggs)})
+    if len(aggs) != 1:
+        r.violate("compiler|ExecutionBranch", "Compiler::compile_nodes no longer builds exactly one ExecutionBranch per node", cn.loc())
+    else:
+        d = dict(zip(aggs[0]["fields"], [cn.deep(o) for o in aggs[0]["ops"]]))
+        for fld, src_ in (("jumps", "children"), ("hereditary_jumps", "descendants")):
+            other = "descendants" if src_ == "children" else "children"
+            r.inst("compiler|" + fld)
+            v = d.get(fld, "")
+            if "compile_descendants" not in v or ("." + src_) not in v or ("." + other) in v:
+                r.violate("compiler|" + fld, f"ExecutionBranch.{fld} is compiled from `{v[-80:]}` instead of the node's {src_}", cn.loc())
+    ab = mir.fn("ExecutionCtx::add_execution_branch")
+    pushes = [(ab.deep(t["args"][0]), ab.deep(t["args"][1])) for bi, t in ab.calls(r"Vec::push$")]
+    for fld in ("jumps", "hereditary_jumps"):
+        r.inst("vm|store|" + fld)
+        ok = any(dst.endswith("stack_item." + fld) and ("branch." + fld + " ") in src_ + " " for dst, src_ in pushes)
+        if not ok:
+            r.violate("vm|store|" + fld, f"add_execution_branch does not store branch.{fld} in stack_item.{fld} (stores: {pushes})", ab.loc())
+    tj = mir.fn("SelectorMatchingVm::try_exec_jumps_without_attrs")
+    src_ = [tj.deep(t["args"][0]) for bi, t in tj.calls(r"enumerate$")]
+    r.inst("vm|jumps-of-parent", sample={"iterates": src_})
+    if len(src_) != 1 or "last(" not in src_[0] or not src_[0].rstrip(")").endswith(".jumps"):
+        r.violate("vm|jumps-of-parent", f"child-combinator jumps must be taken from the last stack item (the parent) only; iterates {src_}", tj.loc())
+    th = mir.fn("SelectorMatchingVm::try_exec_hereditary_jumps_without_attrs")
+    src_ = [th.deep(t["args"][0]) for bi, t in th.calls(r"enumerate$")]
+    r.inst("vm|hereditary-of-ancestors", sample={"iterates": src_})
+    if len(src_) != 1 or "active_hereditary_jumps" not in src_[0]:
+        r.violate("vm|hereditary-of-ancestors", f"descendant-combinator jumps must come from Stack::active_hereditary_jumps (all open ancestors); iterates {src_}", th.loc())
+    pi = mir.fn("Stack::push_item")
+    feeds = [(pi.deep(t["args"][0]), " ".join(pi.deep(a) for a in t["args"][1:])) for bi, t in pi.calls(r"Vec::push$|Vec::extend\w*$|extend\[Extend\]$")]
+    r.inst("vm|active-fed-by-push_item", sample={"feeds": feeds})
+    if not any("active_hereditary_jumps" in dst and "hereditary_jumps" in src2 for dst, src2 in feeds):
+        r.violate("vm|active-fed-by-push_item", f"Stack::push_item no longer adds the pushed item's hereditary_jumps to active_hereditary_jumps ({feeds}): descendant combinators would stop matching below the first level", pi.loc())
+
+    # :nth-child counts all element siblings, :nth-of-type only same-named ones (and must switch the typed counters on)
+    nth = {}
+    for fdef in idx.fns:
+        if fdef.name != "compile":
+            continue
+        for n in walk(fdef.node["body"]):
+            if n.get("k") == "Match":
+                for a in n["arms"]:
+                    ps = (a["pat"].get("s") or "").replace(" ", "")
+                    for v in ("NthChild", "NthOfType"):
+                        if "OnTagNameExpr::" + v in ps:
+                            flds = sorted(set(x.get("member") for x in walk(a["body"]) if x.get("k") == "Field" and x.get("member") in ("cumulative", "typed")))
+                            enables = any(x.get("k") == "Assign" and "enable_nth_of_type" in (x.get("s") or "") and "true" in (x.get("s") or "") for x in walk(a["body"]))
+                            nth[v] = (flds, enables)
+    for v, want in (("NthChild", ["cumulative"]), ("NthOfType", ["typed"])):
+        r.inst("nth|" + v, sample={"variant": v, "reads": nth.get(v)})
+        if v not in nth or nth[v][0] != want or (v == "NthOfType" and not nth[v][1]):
+            r.violate("nth|" + v, f"the compiled test for {v} reads {nth.get(v)} (expected the {want[0]} counter" + (" and enable_nth_of_type = true" if v == "NthOfType" else "") + ")", "src/selectors_vm/compiler.rs")
+
     # ------------------------------------------------------------------ R04.5
     r = ctx.rule("R04.5", "void / self-closing: HTML elements are popped immediately iff void, foreign elements are pushed iff not self-closing", "E-AST", floor=3)
     gsd = idx.one("get_stack_directive", owner="Stack")
